@@ -5,7 +5,7 @@
    checks/c07.py.  This file holds only the theorems, each closed by [exact] + Print Assumptions. *)
 From Coq Require Import ZArith Bool List.
 From MirV Require Import Base.W64 C07.Limits C07.CConv C07.C11Conv C07.CConvProofs C07.CFold C07.C11Fold C07.CFoldProofs
-  C07.BitField C07.BitFieldProofs.
+  C07.BitField C07.BitFieldProofs C07.FFold C07.FFoldProofs.
 Local Open Scope Z_scope.
 
 (* c2mir's arithmetic_conversion (after fixes/C07-1.patch) is C11 6.3.1.8 on all 15 x 15 pairs of
@@ -69,6 +69,48 @@ Theorem fold_prefix_conv_refuted :
 Proof. exact conv_old_fold_refuted. Qed.
 Print Assumptions fold_prefix_conv_refuted.
 Print Assumptions fold_prefix_boolcast_refuted.
+
+(* ---------------------------------------------------------------------------------------------
+   Round 3: constant expressions with floating and MIXED integer/floating operands (C07.FFold: cast_value
+   over all 15 basic types, the floating branches of check_assign_op and check(), the final normalisation;
+   IEEE binary32 / binary64 / x87 extended numbers of Flocq).  Compile-time evaluation equals the run-time
+   meaning (C11 6.3.1.4/6.3.1.5/6.3.1.8, FLT_EVAL_METHOD 0) whenever that is defined.  These theorems use
+   Flocq's specification of rounding, hence the axioms of the classical reals (printed below). *)
+Theorem mixed_cond_eq_runtime : forall c a b r, rt_fcond c a b = Some r -> ffold_cond c a b = Some r.
+Proof. exact ffold_cond_eq_runtime. Qed.
+Print Assumptions mixed_cond_eq_runtime.
+
+Theorem mixed_cast_eq_runtime : forall t a r, rt_fcast t a = Some r -> ffold_cast t a = Some r.
+Proof. exact ffold_cast_eq_runtime. Qed.
+Print Assumptions mixed_cast_eq_runtime.
+
+(* + - * / and the comparisons, after fixes/C07-16.patch (the operation is done in the type of the expression) *)
+Theorem mixed_fold_eq_runtime : forall o a b r, wfa a = true -> wfa b = true ->
+  rt_fbin o a b = Some r -> ffold_bin false o a b = Some r.
+Proof. exact ffold_bin_eq_runtime. Qed.
+Print Assumptions mixed_fold_eq_runtime.
+
+Theorem mixed_unary_eq_runtime : forall o a r, wfa a = true -> rt_fun o a = Some r -> ffold_un o a = Some r.
+Proof. exact ffold_un_eq_runtime. Qed.
+Print Assumptions mixed_unary_eq_runtime.
+
+Theorem mixed_logic_eq_runtime : forall a b,
+  ffold_andand a b = Some (rt_fandand a b) /\ ffold_oror a b = Some (rt_foror a b).
+Proof. exact ffold_logic_eq_runtime. Qed.
+Print Assumptions mixed_logic_eq_runtime.
+
+(* the folder before fixes/C07-16.patch computed + - * / in long double and rounded afterwards: wrong on double
+   (1.0 + 0x1.0000000000001p-53), right for long double results, comparisons and integer operands *)
+Theorem fold_prefix_extprec_refuted :
+  exists a b r, wfa a = true /\ wfa b = true /\ rt_fbin CAdd a b = Some r /\ ffold_bin true CAdd a b <> Some r.
+Proof. exact extprec_refuted. Qed.
+Print Assumptions fold_prefix_extprec_refuted.
+Theorem fold_prefix_extprec_partial : forall o a b r, wfa a = true -> wfa b = true ->
+  is_ccmp o = true \/ c11_conv (aty a) (aty b) = TLDouble
+  \/ (integer_type_p (aty a) = true /\ integer_type_p (aty b) = true) ->
+  rt_fbin o a b = Some r -> ffold_bin true o a b = Some r.
+Proof. exact ffold_bin_extprec_partial. Qed.
+Print Assumptions fold_prefix_extprec_partial.
 
 (* ---------------------------------------------------------------------------------------------
    Bit-field access code of gen() (x86-64): the emitted load / store sequences of C07.BitField
